@@ -65,7 +65,7 @@ func loadAssumed(name string) map[string]string {
 }
 
 func propC07(c *Ctx) {
-	c.Explanation = "Decides crash-freedom obligations over the inbound call-graph context (everything reachable from NIC.DeliverNetworkPacket, the link dispatch loops, the TCP worker goroutines and the echo replier): (P1) every explicit panic in that context is in a reviewed table (discharged by another rule or assumed with a reason) - a new panic is a violation; (P2) every index, slice and fixed-width read (binary.BigEndian) obligation in that context is discharged by an interval + linear-fact abstract interpretation with predicate summaries (IsValid), caller-discharged requirement summaries (header accessors need len >= K) and term axioms (segment.data is a clone of the inbound view), or is listed with a reason in tables/assumed_c07.json; obligations on buffers the stack allocates itself (emit side) are counted, not decided; the protocol-number contract shows that what ParsePorts/ParseAddresses/HandlePacket need is at most the MinimumPacketSize the NIC checked; option parser loops make progress (no zero-length step); (P3) type assertions on heap/list/pool elements agree with the unique type inserted; (P4) integer divisions by non-constants have non-zero divisors by store invariants; (P5) the link dispatch loop is left with a nil error only on end-of-file (length 0), never because of a frame's content; (P6) the lock-order graph over the classes taken in the inbound and API contexts has no cycle. (P1-ts) the neighbour-cache entry typestate behind the changeState panics (shared with C12/T2). NOT decided: nil dereferences, sends on closed channels, nil-map writes, memory exhaustion, the post-barrage liveness probes of the property, the amd64 assembly."
+	c.Explanation = "Decides crash-freedom obligations over the inbound call-graph context (everything reachable from NIC.DeliverNetworkPacket, the link dispatch loops, the TCP worker goroutines and the echo replier): (P1) every explicit panic in that context is in a reviewed table (discharged by another rule or assumed with a reason) - a new panic is a violation; (P2) every index, slice and fixed-width read (binary.BigEndian) obligation in that context is discharged by an interval + linear-fact abstract interpretation with predicate summaries (IsValid), caller-discharged requirement summaries (header accessors need len >= K) and term axioms (segment.data is a clone of the inbound view), or is listed with a reason in tables/assumed_c07.json; obligations on buffers the stack allocates itself (emit side) are counted, not decided; the protocol-number contract shows that what ParsePorts/ParseAddresses/HandlePacket need is at most the MinimumPacketSize the NIC checked; option parser loops make progress (no zero-length step); (P3) type assertions on heap/list/pool elements agree with the unique type inserted; (P4) integer divisions by non-constants have non-zero divisors by store invariants; (P5) the link dispatch loop is left with a nil error only on end-of-file (length 0), never because of a frame's content; (P6) the lock-order graph over the classes taken in the inbound and API contexts has no cycle. (P1-ts) the neighbour-cache entry typestate behind the changeState panics (shared with C12/T2). (P8) the route reference of an echo request is released exactly once on each way out - a second release drives the address reference count negative and panics (shared with C13, C09/D9). (P9) the out-of-order heap is popped only while it has elements: the FIN branch keeps the segment being drained (shared with C01/R12). NOT decided: nil dereferences, sends on closed channels, nil-map writes, memory exhaustion, the post-barrage liveness probes of the property, the amd64 assembly."
 	c.Assumptions = []string{
 		"header accessors are pure between a guard and the use it protects (no code writes inbound headers in between)",
 		"entry assumptions of transport endpoints (len(first view) >= protocol minimum) are established by NIC.DeliverTransportPacket (checked by C09/D2 and P2-contract)",
@@ -77,6 +77,8 @@ func propC07(c *Ctx) {
 	c.Extra["inbound_context_functions"] = len(funcs)
 
 	// ---------------------------------------------------------------- P1 panics
+	echoRouteRefRule(c, c.Rule("P8", "K2 pairing (shared with C13/I1,I2, C09/D9)", "the route reference of a queued echo request is released exactly once on each way out (a second release drives the address reference count negative and panics)", 4))
+	receiverBufferingRule(c, c.Rule("P9", "K7 exact-guard site tables (shared with C01/R12)", "the out-of-order heap is popped only while it has elements: a FIN keeps the segment being drained, everything else is released before the truncation", 6))
 	p1 := c.Rule("P1", "K3 enumeration", "explicit panics in the inbound context are reviewed", 8)
 	panicTable := map[string]string{
 		`(*stack.NIC).removeEndpointLocked/"Reference count dropped to zero before being removed"`:   "assumed: the count reaches zero only after RemoveAddress/getRef/findEndpoint cleared holdsInsertRef; the replace path of addAddressLocked runs only after tryIncRef failed (reading, DESIGN.md C07/P1)",
